@@ -160,4 +160,17 @@ theorem C05_partial : Statement where
 example : ValidUpdate 1 2 (.deposit 3 1.5) ∧ ValidUpdate 1 2 (.scale 0.5) := by
   constructor <;> simp [ValidUpdate] <;> norm_num
 
+/-- `cone_forward_invariant`'s hypotheses are met by a bin filled at unit rate with 2-Msun objects, cone [1, 3] -/
+example : ∀ t ∈ Set.Icc (0:ℝ) 1, (1:ℝ) * t ≤ 2 * t ∧ 2 * t ≤ 3 * t := by
+  have h := Invariant.cone_forward_invariant (fun t => t) (fun t => 2 * t) (fun _ => 1) (fun _ => 2) (fun _ => 0) 1 3 0 1
+    continuous_const
+    (fun t _ => by
+      have := hasDerivAt_id' t
+      refine this.congr_deriv ?_; ring)
+    (fun t _ => by
+      have := (hasDerivAt_id' t).const_mul (2:ℝ)
+      refine this.congr_deriv ?_; ring)
+    (fun _ _ => zero_le_one) (fun _ _ => ⟨by norm_num, by norm_num⟩) (by norm_num)
+  exact h
+
 end Model.C05
